@@ -93,7 +93,6 @@ pthread_t         g_threads[MAXW];
 int               g_nthreads = 0;
 char              g_dispatchSync;          // addresses used as TSan sync objects
 char              g_workerSync[MAXW];
-bool              g_orderedSteps = false;
 
 void* workerMain (void* arg)
 {
@@ -353,10 +352,6 @@ struct SimPool : PyImath::WorkerPool
         }
         std::exception_ptr firstExc;
         bool               cancelled = false;
-        // g_orderedSteps: every hand-off is annotated as well, ThreadSanitizer then sees the steps as the totally
-        // ordered execution they really are and reports no race between them (used for runs of a recorded known
-        // finding whose race reports would depend on the heap layout; the value oracles still judge those runs)
-        const bool ordered = g_orderedSteps;
         TSAN_RELEASE (&g_dispatchSync);
         std::vector<StepRec> executed;
         for (size_t i = 0; i < rec.steps.size (); i++)
@@ -369,13 +364,11 @@ struct SimPool : PyImath::WorkerPool
             }
             HoJob j;
             j.task = &task; j.start = s.start; j.end = s.end; j.tid = s.tid; j.kind = 0;
-            j.first = ordered || firstOf[s.tid] == int (i);
-            if (ordered && i > 0) TSAN_RELEASE (&g_dispatchSync);
+            j.first = firstOf[s.tid] == int (i);
             j.last  = 1; // release after every step: harmless (only the dispatcher acquires) and robust to cancellation
             j.exc   = nullptr;
             ho_put_job (s.tid, &j);
             void* e = ho_wait_done (s.tid);
-            if (ordered) TSAN_ACQUIRE (&g_workerSync[s.tid]);
             executed.push_back (s);
             if (e)
             {
@@ -466,8 +459,6 @@ __attribute__ ((visibility ("default"))) void detsim_set_explicit (const long lo
 }
 
 __attribute__ ((visibility ("default"))) void detsim_set_cancel (int c) { g_cfg.cancelAfterException = c; }
-
-__attribute__ ((visibility ("default"))) void detsim_set_ordered (int on) { g_orderedSteps = on != 0; }
 
 __attribute__ ((visibility ("default"))) void detsim_reset_trace () { g_trace.clear (); }
 
